@@ -7,6 +7,7 @@ def dispatch (op : String) (args : List Sx) : String :=
   | "enc" => opEnc args
   | "dec" => opDec args
   | "rt" => opRt args
+  | "probe" => opProbe args
   | "ping" => "pong"
   | _ => "bad-op"
 
